@@ -3600,8 +3600,12 @@ ConnStateData::finishDechunkingRequest(bool withSuccess)
         Must(!bodyPipe); // we rely on it being nil after we are done with body
         if (withSuccess) {
             Must(myPipe->bodySizeKnown());
-            Http::StreamPointer context = pipeline.front();
-            if (context != nullptr && context->http && context->http->request)
+            // The request whose body we have just dechunked is the last one
+            // parsed. With pipeline_prefetch, it is not necessarily the first
+            // one still being answered.
+            Http::StreamPointer context = pipeline.back();
+            if (context != nullptr && context->http && context->http->request &&
+                    context->http->request->body_pipe == myPipe)
                 context->http->request->setContentLength(myPipe->bodySize());
         }
     }
